@@ -30,6 +30,8 @@ func (kv *KeyValue) AsTemplate() *KeyValue {
 		return NewKeyValue(kv.Key, &Time{})
 	case *Float:
 		return NewKeyValue(kv.Key, &Float{})
+	case *Bool:
+		return NewKeyValue(kv.Key, &Bool{})
 	default:
 		return NewKeyValue(kv.Key, &Raw{})
 	}
